@@ -466,6 +466,17 @@ func e2Track(c *Ctx, s *obSink, fn *ssa.Function, get ssa.Instruction, obj ssa.V
 					}
 					continue
 				}
+				if f != nil && f.Blocks != nil && c.InModule(f) {
+					okAll := true
+					for k, a := range x.Call.Args {
+						if al[a] && !paramStaysPrivate(f, k, 0) {
+							okAll = false
+						}
+					}
+					if okAll {
+						continue
+					}
+				}
 				private, why = false, "object passed to "+calleeShort(x)+" at "+c.InstrPos(x)
 			case *ssa.Store:
 				if al[x.Val] {
@@ -746,7 +757,7 @@ func e2ResetOK(c *Ctx, fn *ssa.Function, get ssa.Instruction, al map[ssa.Value]b
 		}
 		setWhy(msg)
 		return good
-	case "set-whole":
+	case "set-whole", "set-whole-direct":
 		// reflect.Value.Set(Elem(load obj), rv) before the pointer is extracted
 		good := false
 		for v := range al {
@@ -766,6 +777,33 @@ func e2ResetOK(c *Ctx, fn *ssa.Function, get ssa.Instruction, al map[ssa.Value]b
 							// must dominate every conversion of obj to unsafe.Pointer
 							for a := range al {
 								if cv, ok := a.(*ssa.Convert); ok && isUnsafePointer(cv.Type()) && !instrDominates(st, cv) {
+									good = false
+								}
+							}
+						}
+					}
+				}
+			}
+		}
+		if !good && spec.reset == "set-whole" {
+			// the overwrite may be done by a helper that receives the object: the helper sets the whole value before it
+			// takes the address, and the caller does not take the address itself before the call
+			for v := range al {
+				for _, r := range referrers(v) {
+					hc, ok := r.(*ssa.Call)
+					if !ok || hc.Call.StaticCallee() == nil || hc.Call.StaticCallee().Blocks == nil {
+						continue
+					}
+					hf := hc.Call.StaticCallee()
+					for k, a := range hc.Call.Args {
+						if a != v || k >= len(hf.Params) {
+							continue
+						}
+						pal := aliasSet(hf.Params[k])
+						if e2ResetOK(c, hf, hf.Blocks[0].Instrs[0], pal, poolSpec{reset: "set-whole-direct"}, nil) {
+							good = true
+							for a2 := range al {
+								if cv, ok := a2.(*ssa.Convert); ok && isUnsafePointer(cv.Type()) && !instrDominates(hc, cv) {
 									good = false
 								}
 							}
@@ -870,6 +908,16 @@ func (c *Ctx) poolNewType(pool ssa.Value, at *ssa.Function) types.Type {
 				}
 				if nf == nil {
 					continue
+				}
+				if nf.Synthetic != "" {
+					// bound method value (d.newRV): the wrapper only forwards to the method
+					for _, wb := range nf.Blocks {
+						for _, wi := range wb.Instrs {
+							if wc, ok := wi.(*ssa.Call); ok && wc.Call.StaticCallee() != nil && wc.Call.StaticCallee().Blocks != nil {
+								nf = wc.Call.StaticCallee()
+							}
+						}
+					}
 				}
 				for _, nb := range nf.Blocks {
 					if ret, ok := nb.Instrs[len(nb.Instrs)-1].(*ssa.Return); ok && len(ret.Results) == 1 {
@@ -1387,4 +1435,50 @@ func destWritten(c *Ctx, s *obSink, fn *ssa.Function, k *kinds) {
 		}
 		s.check(!reach, key, c.InstrPos(ret), "every success path stores the destination", "a success return is reachable without storing the destination: a reused or pre-filled slot keeps its previous value: "+c.srcLine(ret.Pos()))
 	}
+}
+
+// paramStaysPrivate: inside f, parameter k (a pooled object handed in by the caller) is only read through, used as a method
+// receiver or converted for reading: it is not stored, returned as such, converted to an interface or passed further (beyond
+// one more level).
+func paramStaysPrivate(f *ssa.Function, k int, depth int) bool {
+	if k >= len(f.Params) || depth > 1 {
+		return false
+	}
+	al := aliasSet(f.Params[k])
+	for v := range al {
+		for _, r := range referrers(v) {
+			switch x := r.(type) {
+			case *ssa.Phi, *ssa.Convert, *ssa.ChangeType, *ssa.DebugRef, *ssa.FieldAddr, *ssa.BinOp, *ssa.UnOp:
+			case *ssa.Store:
+				if al[x.Val] {
+					return false
+				}
+			case *ssa.Call:
+				cf := x.Call.StaticCallee()
+				if cf != nil && cf.Signature.Recv() != nil && len(x.Call.Args) > 0 && al[x.Call.Args[0]] {
+					continue
+				}
+				okAll := cf != nil && cf.Blocks != nil
+				if okAll {
+					for j, a := range x.Call.Args {
+						if al[a] && !paramStaysPrivate(cf, j, depth+1) {
+							okAll = false
+						}
+					}
+				}
+				if !okAll {
+					return false
+				}
+			case *ssa.Return:
+				for _, rv := range x.Results {
+					if al[rv] && !isUnsafePointer(rv.Type()) {
+						return false
+					}
+				}
+			default:
+				return false
+			}
+		}
+	}
+	return true
 }
